@@ -397,6 +397,11 @@ fn run_episode(
 const PREEMPT_K_MAX: u32 = 64;
 const PREEMPT_K_MAX_THOROUGH: u32 = 160;
 /// Worker processes the preemption sweep is spread over: quick / thorough.
+/// Histories that repeat a build: single steps per swept history that are spread over the visits of the repeated
+/// build (few visits, e.g. when a remembered result is returned early, mean many instruction counts per visit).
+const PREEMPT_STEP_BUDGET: u32 = 3000;
+const PREEMPT_STEP_BUDGET_THOROUGH: u32 = 8000;
+const PREEMPT_K_CAP: u32 = 4000;
 const PREEMPT_EPISODES: u64 = 16;
 const PREEMPT_EPISODES_THOROUGH: u64 = 96;
 
@@ -414,6 +419,9 @@ struct PreemptSweep {
     visit: u64,
     k: u32,
     k_max: u32,
+    k_min: u32,
+    step_budget: u32,
+    skip_visits: u64,
     second_pass: bool,
     parked: u64,
     pass: u8,
@@ -436,6 +444,9 @@ impl PreemptSweep {
             visit: 0,
             k: 0,
             k_max,
+            k_min: k_max,
+            step_budget: if tier == "thorough" { PREEMPT_STEP_BUDGET_THOROUGH } else { PREEMPT_STEP_BUDGET },
+            skip_visits: 0,
             second_pass: tier == "thorough",
             parked: 0,
             pass: 0,
@@ -452,6 +463,27 @@ impl PreemptSweep {
             match self.state {
                 0 => {
                     self.seeds = (self.rng.next_u64() | 1, self.rng.next_u64() | 1);
+                    self.skip_visits = 0;
+                    let pair = &self.pairs[self.pos];
+                    if pair.skip_ops > 0 {
+                        // first count the visits of the part of the history that is not swept
+                        self.state = 5;
+                        let head = PreemptPair {
+                            victim: pair.victim[..pair.skip_ops].to_vec(),
+                            intruder: pair.intruder.clone(),
+                            systematic: pair.systematic,
+                            skip_ops: 0,
+                        };
+                        return Some(preempt_run(&head, self.seeds, 0, 0, 0));
+                    }
+                    self.state = 1;
+                    return Some(preempt_run(pair, self.seeds, 0, 0, 0));
+                }
+                5 => {
+                    let info = grex_sim::exec::LAST_RUN_INFO.lock().unwrap().clone();
+                    // the truncated history ends with the visit of the final drop of the builders, which the full
+                    // history makes later
+                    self.skip_visits = info.0.first().copied().unwrap_or(1).saturating_sub(1);
                     self.state = 1;
                     return Some(preempt_run(&self.pairs[self.pos], self.seeds, 0, 0, 0));
                 }
@@ -459,12 +491,17 @@ impl PreemptSweep {
                     let info = grex_sim::exec::LAST_RUN_INFO.lock().unwrap().clone();
                     self.visits = info.0.first().copied().unwrap_or(0);
                     self.intruder_visits = info.0.get(1).copied().unwrap_or(0);
-                    self.visit = 1;
+                    self.visit = self.skip_visits + 1;
+                    self.k_max = if self.pairs[self.pos].skip_ops > 2 {
+                        (self.step_budget / (self.visits.saturating_sub(self.skip_visits).max(1) as u32)).clamp(self.k_min, PREEMPT_K_CAP)
+                    } else {
+                        self.k_min
+                    };
                     self.k = 1;
                     self.pass = 0;
                     self.parked = 0;
                     self.state = 2;
-                    if self.visits > 0 {
+                    if self.visits >= self.visit {
                         return Some(preempt_run(&self.pairs[self.pos], self.seeds, self.visit, self.k, self.parked));
                     }
                 }
@@ -472,6 +509,9 @@ impl PreemptSweep {
                     // what did the previous run of the sweep report?
                     let info = grex_sim::exec::LAST_RUN_INFO.lock().unwrap().clone();
                     let victim_preemptions = info.1.saturating_sub(if self.parked > 0 { 1 } else { 0 });
+                    if std::env::var("SIMHIST_DEBUG_SWEEP").is_ok() {
+                        eprintln!("pair {} visit {}/{} k {}/{} parked {} -> visits {:?} preemptions {} at_next_hook {}", self.pos, self.visit, self.visits, self.k, self.k_max, self.parked, info.0, info.1, info.2);
+                    }
                     let reached_next_hook = info.2 > 0 || victim_preemptions == 0;
                     if reached_next_hook || self.k >= self.k_max {
                         self.visits_swept += 1;
@@ -485,7 +525,7 @@ impl PreemptSweep {
                         if self.pass == 0 && self.second_pass && self.pairs[self.pos].systematic && self.intruder_visits > 1 {
                             self.pass = 1;
                             self.parked = 1 + self.rng.below(self.intruder_visits);
-                            self.visit = 1;
+                            self.visit = self.skip_visits + 1;
                             self.k = 1;
                         } else {
                             self.pairs_done += 1;
@@ -1673,7 +1713,7 @@ fn mode_run(args: &[String]) -> i32 {
                 "episodes": n_pre,
                 "two_client_worlds_swept": agg.get("preempt_pairs"),
                 "hook_visits_swept": agg.get("preempt_hook_visits_swept"),
-                "instruction_counts_per_visit": format!("1..={} (until the next hook is reached)", if tier == "thorough" { PREEMPT_K_MAX_THOROUGH } else { PREEMPT_K_MAX }),
+                "instruction_counts_per_visit": format!("1..={} (until the next hook or the end of the call is reached); repeated builds: 1..=({} / visits of the repeated build), at most {}", if tier == "thorough" { PREEMPT_K_MAX_THOROUGH } else { PREEMPT_K_MAX }, if tier == "thorough" { PREEMPT_STEP_BUDGET_THOROUGH } else { PREEMPT_STEP_BUDGET }, PREEMPT_K_CAP),
                 "runs": agg.get("preempt_runs"),
                 "preemptions_between_two_instructions": agg.get("preemptions_between_instructions"),
                 "preemptions_carried_out_at_the_next_hook_instead": agg.get("preemptions_at_next_hook"),
